@@ -588,6 +588,13 @@ def same_contraction(a, b):
             if edge:
                 o = tuple(g(ix) for ix in o)
         return (tuple(map(tuple, ins)), tuple(out), sizes, o, dict(s.get("kwargs", {})), s.get("constants"))
+    for s in (a, b):
+        if s.get("inputs") is None and "..." in s.get("eq", ""):
+            # ellipsis equations expand to ordinary ones depending on the ranks ('...a,a...->...' and
+            # '...a,...a' are the same contraction on shapes (2,3),(3,)): undecided here, the values
+            # are judged; sharing is only conceivable for equal shapes and options
+            return (a.get("shapes") == b.get("shapes") and a.get("kwargs", {}) == b.get("kwargs", {})
+                    and a.get("optimize", "auto") == b.get("optimize", "auto"))
     try:
         return canon(a) == canon(b)
     except Exception:
